@@ -22,6 +22,7 @@ type PropMeta struct {
 	Env          []string
 	RaceFraction float64 // fraction of workers running the -race build
 	NoMinimise   bool
+	EnumTotal    int // size of the sub-space the thorough tier enumerates completely (probe enum_cases)
 }
 
 var realCommon = []string{"rsyncclient", "rsyncd", "rsynccmd", "internal/maincmd", "internal/sender", "internal/receiver", "internal/rsyncwire", "internal/rsyncopts", "internal/rsyncchecksum", "internal/rsynccommon", "renameio", "os.Root", "kernel tmpfs under /dev/shm"}
@@ -41,6 +42,16 @@ var Meta = map[string]PropMeta{
 		Quick:     q(400, 50*time.Second),
 		Thorough:  q(20000, 20*time.Minute),
 	},
+	"C02": {
+		Level:     "exploration",
+		Technique: "deterministic simulation: reference protocol-27 receiver (independent implementation, cross-checked against tridge rsync 3.2.7) drives the real sender with block-checksum sets of its own choosing over bases of its own choosing; reference sender drives the real receiver with scripted token streams; scheduled transport and short-reading simulated sender disk; bounded enumeration of the small-alphabet sub-space in the thorough tier",
+		Rule:      "sender mode: 1-6 files per session, each a (target, basis, block length, strong length) case: small alphabets {a,b}/{a,b,c} with lengths 0..12 and block lengths 1..8, or large files up to 3 MiB with block lengths 700..131072 (incl. multiples of 8 and tiny legal ones), bases = edited variants incl. weak-checksum-colliding blocks (+1,-2,+1 byte patch keeps the rolling sum), duplicated blocks, remainder block recurring mid-file; real daemon serves from a directory or from a short-reading fs.FS. Oracle: tokens applied to the basis == source bytes, trailer == MD4(seed||source), head echoed; with a truncated strong sum a mismatch is accepted only if weak and truncated strong sums of the referenced block and the target window are equal. receiver mode: real pulling client, destination holds bases, reference sender answers with random scripts (literal runs 1 B..256 KiB+1, block references in any order, repeated, remainder block mid-file); oracle: file written == bytes denoted. thorough additionally enumerates ALL targets x bases over {a,b} of length 1..6 x block lengths 1..4 (63504 cases). Non-trivial = a reply with both block references and literals (sender) / scripts with block references (receiver)",
+		Assumptions: []string{"refproto is the trusted base (go test ./refproto validates it against /usr/bin/rsync --protocol=27 when present)", "file sizes <= 3 MiB"},
+		Real:      realCommon, Stub: append([]string{"peer: reference protocol-27 receiver/sender (verif/sim/refproto)", "sender disk for fs.FS modules: simfs with seeded short reads"}, stubCommon...),
+		Quick:     q(500, 50*time.Second),
+		Thorough:  q(30000, 20*time.Minute),
+		EnumTotal: 63504,
+	},
 	"C04": {
 		Level:     "fault_enumeration",
 		Technique: "deterministic simulation with fault injection: step invariant (old-or-new at every quiescent point = crash point at wire-token granularity), freeze (crash) and connection-cut faults at byte offsets of either direction, leftover-temp check after error returns",
@@ -49,6 +60,15 @@ var Meta = map[string]PropMeta{
 		Real:      realCommon, Stub: stubCommon,
 		Quick:     q(150, 60*time.Second),
 		Thorough:  q(6000, 25*time.Minute),
+	},
+	"C16": {
+		Level:     "exploration",
+		Technique: "deterministic simulation + wire-history monitor: literal bytes and block references counted in the real sender's token stream (decoded by the reference protocol-27 parser), with the real generator's signatures and with reference signatures at other block sizes; chunked scheduled transport and short-reading simulated disk",
+		Rule:      "1-3 high-entropy files (2 KB..3 MiB quick, ..24 MiB thorough), the sender's version = receiver's copy + 0..4 edits (insert/delete/replace of 1..20000 bytes at unaligned offsets, prepend, append, block swap). Oracle: identical file => 0 literal bytes; otherwise literal bytes <= sum(new bytes of edit + 3B per continuity break) + B with B the block length seen in the echoed checksum header; reconstruction exact. Non-trivial = edited file longer than 4 blocks; distinct = distinct scenario",
+		Assumptions: []string{"bound constant 3 is deliberately loose (an edit spoils the blocks it overlaps plus neighbours)", "refproto parser is the trusted base"},
+		Real:      realCommon, Stub: append([]string{"mode ref: receiving peer is the reference receiver"}, stubCommon...),
+		Quick:     q(200, 50*time.Second),
+		Thorough:  q(8000, 20*time.Minute),
 	},
 	"C18": {
 		Level:     "exploration",
